@@ -70,7 +70,7 @@ RULE_APP = ("end to end through the application: one case = one generated networ
 def run_app_stream(chk):
     """stream app_limits of harness/src/bin/e2e.rs: I vs S only"""
     binp = vf.build_harness("e2e")
-    n = 90 if chk.tier == "quick" else 1200
+    n = 100 if chk.tier == "quick" else 1200
     r = vf.run_stream(binp, "app_limits", n, chk.seed, os.path.join(chk.outdir, "app_limits"), replay=chk.replay)
     # no model line in this stream: the comparison is I vs S (a missing S line is still reported)
     r.model["M"] = dict(r.model.get("S", {}))
